@@ -41,6 +41,9 @@ MODELLED_PARSING = {'is_hex', 'get_symbols', 'define_macro', 'invoke_macro', 'se
                     'parse_def', 'parse_if', 'parse_else', 'parse_try', 'parse_except', 'parse_loop', 'parse_next',
                     '_find_matching_brace', 'compile_script', 'parse_comptime', 'assemble', 'decompile_script'}
 KNOWN = {'functions': MODELLED, 'parsing': MODELLED_PARSING, 'classes': set()}
+# module-level names the rules refer to by name: never replaced by their value
+KEEP_NAMES = {'_special_symbols', '_RETURNED', 'opcodes', 'nopcodes', 'opcodes_inverse', 'nopcodes_inverse', 'opcode_aliases',
+              'flags', 'flags_to_set', '_plugins', '_contracts', '_contract_interfaces', 'additional_opcodes'}
 PRIMITIVE_METHODS = {
     'Tape': {'read', 'move_pointer', 'reset_pointer', 'reset', 'has_terminated', 'remaining', '__init__',
              '__post_init__'},
@@ -148,6 +151,7 @@ class Inliner:
             if m is None:
                 continue
             self.fn_helpers = self.module_helpers.get(mn, {})
+            self._cur_module = mn
             for fn in self._all_defs(m.tree):
                 self._inline_into(fn, m, chain=(fn.name,))
             self._remove_unreferenced_in(m, self.fn_helpers)
@@ -251,7 +255,73 @@ class Inliner:
         return {k: v for k, v in env.items() if v}
 
     # ------------------------------------------------------------------
+    def _inline_expr_helpers(self, fn: ast.FunctionDef):
+        """A helper whose whole body is `return <expression>` is a named expression: every call with simple
+        arguments is replaced by the expression itself, wherever it stands (no hoisting, so conditional
+        positions are fine)."""
+        import copy as _copy
+        outer = self
+
+        def simple(e):
+            if isinstance(e, (ast.Name, ast.Constant)):
+                return True
+            if isinstance(e, ast.Attribute):
+                return simple(e.value)
+            if isinstance(e, ast.Subscript):
+                return simple(e.value) and (isinstance(e.slice, (ast.Constant, ast.Name)) or
+                                            (isinstance(e.slice, ast.UnaryOp) and isinstance(e.slice.operand, ast.Constant)))
+            return False
+
+        class T(ast.NodeTransformer):
+            changed = False
+
+            def visit_Call(self, n):
+                self.generic_visit(n)
+                if not (isinstance(n.func, ast.Name) and n.func.id in outer.fn_helpers):
+                    return n
+                h = outer.fn_helpers[n.func.id]
+                if h is fn:
+                    return n
+                body = [b for b in h.body if not (isinstance(b, ast.Expr) and isinstance(b.value, ast.Constant))]
+                a = h.args
+                if len(body) != 1 or not isinstance(body[0], ast.Return) or body[0].value is None or a.vararg or a.kwarg \
+                        or a.kwonlyargs or h.decorator_list or n.keywords or any(isinstance(x, ast.Starred) for x in n.args):
+                    return n
+                params = [x.arg for x in a.posonlyargs + a.args]
+                if len(n.args) > len(params):
+                    return n
+                bound = dict(zip(params, n.args))
+                pos = a.posonlyargs + a.args
+                for p, d in zip(pos[len(pos) - len(a.defaults):], a.defaults):
+                    bound.setdefault(p.arg, d)
+                if set(bound) != set(params) or not all(simple(v) for v in bound.values()):
+                    return n
+                expr = _copy.deepcopy(body[0].value)
+                if any(isinstance(x, (ast.Lambda, ast.Yield, ast.Await, ast.NamedExpr, ast.ListComp, ast.GeneratorExp,
+                                      ast.SetComp, ast.DictComp)) for x in ast.walk(expr)):
+                    return n
+
+                class S(ast.NodeTransformer):
+                    def visit_Name(self2, x):
+                        if isinstance(x.ctx, ast.Load) and x.id in bound:
+                            return ast.copy_location(_copy.deepcopy(bound[x.id]), x)
+                        return x
+                expr = S().visit(expr)
+                for x in ast.walk(expr):
+                    ast.copy_location(x, n)
+                T.changed = True
+                outer.notes['inlined'].append(f'{n.func.id} into {fn.name} (line {n.lineno}, expression)')
+                return expr
+        t = T()
+        for _ in range(4):
+            T.changed = False
+            fn.body = [t.visit(b) for b in fn.body]
+            if not T.changed:
+                break
+        ast.fix_missing_locations(fn)
+
     def _inline_into(self, fn: ast.FunctionDef, module, chain, depth=0):
+        self._inline_expr_helpers(fn)
         cls = None
         for st in module.tree.body:
             if isinstance(st, ast.ClassDef) and fn in st.body:
@@ -269,7 +339,7 @@ class Inliner:
             if isinstance(n, ast.Call):
                 tgt = self._target(n, env)
                 if tgt is not None and tgt[1] is not fn:
-                    self.notes['opaque'].append(f'{fn.name}: call to {tgt[0]} at line {n.lineno} could not be inlined')
+                    self.notes['opaque'].append(f'{module.name}.{fn.name}: call to {tgt[0]} at line {n.lineno} could not be inlined')
 
     def _target(self, call: ast.Call, env):
         f = call.func
@@ -309,7 +379,7 @@ class Inliner:
                     self.notes['inlined'].append(f'{tgt_h[0]} into {fn.name} (line {tmp_assign.value.lineno}, hoisted)')
                     out += repl
                 except NotInlinable as e:
-                    self.notes['opaque'].append(f'{fn.name}: call to {tgt_h[0]} at line {tmp_assign.value.lineno}: {e}')
+                    self.notes['opaque'].append(f'{self._cur_module}.{fn.name}: call to {tgt_h[0]} at line {tmp_assign.value.lineno}: {e}')
                     out.append(tmp_assign)
                 out.append(s)
                 changed = True
@@ -332,7 +402,7 @@ class Inliner:
                 else:
                     repl = self._expand(call, tgt, mode, target, s)
             except NotInlinable as e:
-                self.notes['opaque'].append(f'{fn.name}: call to {tgt[0]} at line {call.lineno}: {e}')
+                self.notes['opaque'].append(f'{self._cur_module}.{fn.name}: call to {tgt[0]} at line {call.lineno}: {e}')
                 out.append(s)
                 continue
             self.notes['inlined'].append(f'{tgt[0]} into {fn.name} (line {call.lineno})')
@@ -817,7 +887,7 @@ def _propagate_constants(modules: dict) -> int:
                     if not ok:
                         table_like.discard(n.id)
                         vals.pop(n.id, None)
-        consts[mn] = {k: v for k, v in vals.items() if counts.get(k) == 1 and k not in rebound}
+        consts[mn] = {k: v for k, v in vals.items() if counts.get(k) == 1 and k not in rebound and k not in KEEP_NAMES}
     done = 0
     for mn, m in modules.items():
         visible = dict(consts.get(mn, {}))
@@ -1050,6 +1120,138 @@ def _expand_table_arms(modules: dict) -> int:
     return done
 
 
+def _stable_expr(e: ast.AST) -> bool:
+    """Attribute chains, subscripts with constant / name keys, +/- arithmetic and `.to_bytes(<const>, <const>)` over
+    names and constants: reading it twice gives the same object / value as long as nothing in between writes
+    one of its parts."""
+    if isinstance(e, (ast.Name, ast.Constant)):
+        return True
+    if isinstance(e, ast.Attribute):
+        return _stable_expr(e.value)
+    if isinstance(e, ast.Subscript):
+        sl = e.slice
+        return _stable_expr(e.value) and isinstance(sl, ast.Constant)
+    if isinstance(e, ast.BinOp) and isinstance(e.op, (ast.Add, ast.Sub)):
+        return _stable_expr(e.left) and _stable_expr(e.right)
+    if isinstance(e, ast.Call) and isinstance(e.func, ast.Attribute) and e.func.attr == 'to_bytes' and not e.keywords and \
+            all(isinstance(a, ast.Constant) for a in e.args) and isinstance(e.func.value, ast.Name):
+        return True
+    return False
+
+
+def _dealias(fn: ast.FunctionDef) -> int:
+    total = 0
+    for _ in range(24):
+        n = _dealias_once(fn)
+        if not n:
+            break
+        total += n
+    return total
+
+
+def _dealias_once(fn: ast.FunctionDef) -> int:
+    """Copy propagation of single-assignment locals that only name a stable expression
+    (`items = stack.deque`, `threshold = tape.flags['ts_threshold']`, `sig_size = nacl.bindings.crypto_sign_BYTES`,
+    `end = self.pointer + size`): uses of the local are read as the expression, provided nothing between the
+    definition and a use writes a part of it.  Identity on code without such locals."""
+    import copy as _copy
+    params = {a.arg for a in fn.args.posonlyargs + fn.args.args + fn.args.kwonlyargs}
+    stores: dict[str, list] = {}
+    for n in ast.walk(fn):
+        if isinstance(n, ast.Name) and isinstance(n.ctx, (ast.Store, ast.Del)):
+            stores.setdefault(n.id, []).append(n)
+        if n is not fn and isinstance(n, (ast.FunctionDef, ast.AsyncFunctionDef, ast.Lambda)):
+            return 0            # closures: keep it simple
+    # every write event with its line: (text of the written path, line)
+    writes = []
+    for n in ast.walk(fn):
+        tgs = []
+        if isinstance(n, ast.Assign):
+            tgs = n.targets
+        elif isinstance(n, (ast.AugAssign, ast.AnnAssign)):
+            tgs = [n.target]
+        elif isinstance(n, ast.Delete):
+            tgs = n.targets
+        elif isinstance(n, ast.For):
+            tgs = [n.target]
+        for t in tgs:
+            for x in ast.walk(t):
+                if isinstance(x, (ast.Name, ast.Attribute, ast.Subscript)) and isinstance(getattr(x, 'ctx', None), (ast.Store, ast.Del)):
+                    writes.append((ast.unparse(x), n.lineno, n))
+        if isinstance(n, ast.Call) and isinstance(n.func, ast.Attribute):
+            # a method call may change its receiver (move_pointer, append, pop ...)
+            writes.append((ast.unparse(n.func.value), n.lineno, n))
+    cands = {}
+    for st in ast.walk(fn):
+        if isinstance(st, ast.Assign) and len(st.targets) == 1 and isinstance(st.targets[0], ast.Name):
+            nm = st.targets[0].id
+            if nm in params or len(stores.get(nm, [])) != 1:
+                continue
+            v = st.value
+            if isinstance(v, (ast.Name, ast.Constant)) or not _stable_expr(v):
+                continue
+            # every name the expression reads is a parameter or assigned exactly once, earlier
+            ok = True
+            for x in ast.walk(v):
+                if isinstance(x, ast.Name):
+                    ss = stores.get(x.id, [])
+                    if x.id in params and not ss:
+                        continue
+                    if x.id not in params and not ss:
+                        continue            # a global / module
+                    if len(ss) == 1 and ss[0].lineno < st.lineno and x.id not in params:
+                        continue
+                    ok = False
+            if ok:
+                cands[nm] = (v, st)
+    if not cands:
+        return 0
+    done = 0
+    for nm, (v, st) in cands.items():
+        text = ast.unparse(v)
+        parts = {ast.unparse(x) for x in ast.walk(v) if isinstance(x, (ast.Name, ast.Attribute, ast.Subscript))}
+        uses = [x for x in ast.walk(fn) if isinstance(x, ast.Name) and x.id == nm and isinstance(x.ctx, ast.Load)]
+        if not uses:
+            continue
+        last = max(u.lineno for u in uses)
+        # writes to a part of the expression (or through a method call on a part) between definition and last use;
+        # writes *through the alias itself* (items[i] = v) are what we are translating, not a hazard
+        hazard = False
+        for wt, line, node in writes:
+            if node is st or not (st.lineno <= line <= last):
+                continue
+            if wt == nm or wt.startswith(nm + '[') or wt.startswith(nm + '.'):
+                continue
+            if wt in parts and not (isinstance(node, ast.Call) and wt in {ast.unparse(x) for x in ast.walk(v) if isinstance(x, ast.Name)}
+                                    and not isinstance(v, ast.BinOp)):
+                hazard = True
+            if isinstance(node, ast.Call) and isinstance(v, ast.BinOp) and wt in parts:
+                hazard = True
+        if hazard:
+            continue
+
+        class S(ast.NodeTransformer):
+            def visit_Name(self, x):
+                if x.id == nm and isinstance(x.ctx, ast.Load):
+                    return ast.copy_location(_copy.deepcopy(v), x)
+                return x
+        for i, b in enumerate(fn.body):
+            fn.body[i] = S().visit(b)
+        # the definition is dead now (reading a stable expression has no effect): drop it
+        for holder in ast.walk(fn):
+            for fld in ('body', 'orelse', 'finalbody'):
+                lst = getattr(holder, fld, None)
+                if isinstance(lst, list) and st in lst:
+                    lst.remove(st)
+                    if not lst:
+                        lst.append(ast.copy_location(ast.Pass(), st))
+        done += 1
+        break               # texts and write inventory are stale now: recompute before the next alias
+    if done:
+        ast.fix_missing_locations(fn)
+    return done
+
+
 def _fold_defaults(node: ast.AST):
     """`x = <literal>` directly followed by `x = B if c else x` (or `x if c else B`): the name in the conditional
     is the literal."""
@@ -1083,6 +1285,11 @@ def normalise(modules: dict) -> dict:
     nconst = _propagate_constants(modules)
     n = 0
     ncond = 0
+    nalias = 0
+    for mn, m in modules.items():
+        if mn in ('functions', 'classes', 'parsing'):
+            for fn in [x for x in ast.walk(m.tree) if isinstance(x, ast.FunctionDef)]:
+                nalias += _dealias(fn)
     for mn, m in modules.items():
         c0 = _CanonAug()            # first: `x = x + e` is an accumulation, not a conditional value
         c0.visit(m.tree)
@@ -1110,4 +1317,5 @@ def normalise(modules: dict) -> dict:
     notes['constants_propagated'] = nconst
     notes['conditional_assignments'] = ncond
     notes['table_arms_expanded'] = ntab
+    notes['aliases_resolved'] = nalias
     return notes
